@@ -538,9 +538,127 @@ def split_execs(trace_path):
     return n, hs
 
 
-def check_trace(run, what, trace_module, cfg, trace_path, script_path=None, timeout=1100, xmx="20g", extra_env=None, spec_dir=None):
-    """validate; on rejection re-run once; raise Violation with a replay file"""
-    ok, matched, res = validate_trace(run, trace_module, cfg, trace_path, timeout=timeout, xmx=xmx, extra_env=extra_env, spec_dir=spec_dir)
+def _split_at_resets(trace_path, outdir, max_lines=15000):
+    """chunks of whole executions (a chunk starts at a Reset line), at most max_lines lines unless one execution is longer"""
+    os.makedirs(outdir, exist_ok=True)
+    chunks, cur, n, first = [], None, 0, 1
+    with open(trace_path, "rb") as f:
+        for i, line in enumerate(f, 1):
+            if cur is None or (line.startswith(b'{"e":"Reset"') and n >= max_lines):
+                if cur:
+                    cur.close()
+                pth = os.path.join(outdir, "chunk%04d.ndjson" % len(chunks))
+                chunks.append((pth, i))
+                cur, n = open(pth, "wb"), 0
+            cur.write(line)
+            n += 1
+    if cur:
+        cur.close()
+    return chunks
+
+
+def filter_execs(src, dst, keep):
+    """copy the executions (Reset line + following lines) whose Reset record satisfies keep(record)"""
+    kept = dropped = 0
+    on = True
+    with open(src) as f, open(dst, "w") as out:
+        for line in f:
+            if line.startswith('{"e":"Reset"'):
+                on = bool(keep(json.loads(line)))
+                kept += on
+                dropped += not on
+            if on:
+                out.write(line)
+    return kept, dropped
+
+
+def validate_loose(run, module, cfg, trace_path, tag=None, timeout=1500, xmx="6g"):
+    """Second opinion at the grain of call results (Trace<M>Loose.tla): accepted iff some behaviour of the specification
+    consumes the whole trace (judged by the module's postcondition).  The search keeps many states per trace line, and
+    TLC's disk-backed queue limits behaviours to 65535 states, so the trace is validated in chunks of whole executions
+    (several TLC processes at a time).  Returns (accepted, furthest_event, res)."""
+    from concurrent.futures import ThreadPoolExecutor
+    base = tag or ("loose-" + os.path.basename(trace_path))
+    cdir = run.path("chunks-" + re.sub(r"[^A-Za-z0-9_.-]+", "_", base))
+    shutil.rmtree(cdir, ignore_errors=True)
+    chunks = _split_at_resets(trace_path, cdir)
+
+    def one(k):
+        pth, first = chunks[k]
+        return tlc(run, module, cfg, mode="trace", workers=1, env={"TRACE": pth}, timeout=timeout,
+                   tag="%s-%d" % (base, k), coverage=False, xmx=xmx, deadlock=False)
+    with ThreadPoolExecutor(max_workers=min(6, max(1, NCPU // 2))) as ex:
+        results = list(ex.map(one, range(len(chunks))))
+    total = {"distinct": sum(r["distinct"] for r in results), "generated": sum(r["generated"] for r in results), "out": ""}
+    for k, res in enumerate(results):
+        if res["ok"] and "LOOSE_ACCEPTED" in res["out"]:
+            continue
+        if res["ok"]:
+            m = re.search(r"LOOSE_FURTHEST_EVENT\D+(\d+)", res["out"])
+            far = chunks[k][1] - 1 + (int(m.group(1)) if m else 1)
+            shutil.rmtree(cdir, ignore_errors=True)
+            return False, far, total
+        raise Infra("loose trace validation %s: TLC failed rc=%s\n%s" % (module, res["rc"], "\n".join(res["out"].splitlines()[-30:])))
+    shutil.rmtree(cdir, ignore_errors=True)
+    return True, count_lines(trace_path), total
+
+
+def check_trace(run, what, trace_module, cfg, trace_path, script_path=None, timeout=1100, xmx="20g", extra_env=None, spec_dir=None,
+                loose=None):
+    """validate; on rejection re-run once; raise Violation with a replay file.
+    loose = (module, cfg): the step-level rejection is put to the result-level specification before it is reported; if that
+    accepts the whole trace, the implementation differs from the step-level model but every result the callers saw is a
+    result the specification allows - recorded in the evidence as a divergence, not reported as a violation."""
+    if loose and os.environ.get("VERIF_FORCE_LOOSE"):      # test mode for the machinery: judge by the result-level specification alone
+        ok, matched, res = False, 0, {}
+    else:
+        ok, matched, res = validate_trace(run, trace_module, cfg, trace_path, timeout=timeout, xmx=xmx, extra_env=extra_env, spec_dir=spec_dir)
+    if not ok and loose and not os.environ.get("VERIF_NO_LOOSE"):
+        ltrace = trace_path
+        consult = True
+        if len(loose) > 2 and loose[2]:
+            # The result-level search is exponential in the number of contexts that are inside a call at the same time,
+            # so it re-judges only the executions within the filter's bound.  A step-level rejection inside an execution
+            # it cannot re-judge stands, unless the executions it can re-judge are rejected at step level as well (then
+            # the implementation differs from the step-level model everywhere, and the result-level verdict on the
+            # re-judgeable executions is the best available one; the others are reported as not judged).
+            ltrace = run.path("loose-input-" + os.path.basename(trace_path))
+            kept, dropped = filter_execs(trace_path, ltrace, loose[2])
+            rej = None
+            with open(trace_path) as f:
+                for i, line in enumerate(f, 1):
+                    if i > matched + 1:
+                        break
+                    if line.startswith('{"e":"Reset"'):
+                        rej = json.loads(line)
+            if not os.environ.get("VERIF_FORCE_LOOSE") and rej is not None and not loose[2](rej):
+                sok, _, _ = validate_trace(run, trace_module, cfg, ltrace, tag="tv-subset", timeout=timeout, xmx=xmx, extra_env=extra_env, spec_dir=spec_dir)
+                if sok:
+                    consult = False       # the model fits the implementation wherever both verdicts are available: the rejection stands
+            if consult:
+                run.notes.append("%s: result-level validation on %d executions (%d beyond its bound not re-judged)" % (what, kept, dropped))
+    if not ok and loose and not os.environ.get("VERIF_NO_LOOSE") and consult:
+        lok, far, lres = validate_loose(run, loose[0], loose[1], ltrace, timeout=timeout)
+        if lok:
+            bad = read_line(trace_path, matched + 1)
+            note = {"what": what, "step_level_rejected_at_event": matched + 1, "event": (bad or "")[:300],
+                    "result_level": "accepted by %s (%d states)" % (loose[0], lres["distinct"])}
+            run.extra.setdefault("model_divergence", []).append(note)
+            print("NOTE: %s: step-level model rejects event %d, result-level specification %s accepts the whole trace "
+                  "(implementation differs from the model at the grain of atomic operations; the observable contract holds)"
+                  % (what, matched + 1, loose[0]), flush=True)
+            n, hs = split_execs(ltrace)
+            run.traces += n
+            run.events += count_lines(ltrace)
+            run.hashes |= hs
+            run.states += lres["distinct"]
+            run.transitions += lres["generated"]
+            run.exhaustive = False
+            return n
+    if not ok and loose and os.environ.get("VERIF_FORCE_LOOSE"):
+        bad = read_line(ltrace, far)
+        rp = save_replay(run, what + "-loose", {"property": run.pid, "what": what, "trace_module": loose[0], "furthest_event": far, "event": bad})
+        raise Violation("%s: results not explained by any interleaving of the specification; furthest event reached %d: %s" % (what, far, (bad or "")[:300]), replay=rp, key=None)
     if not ok:
         ok2, matched2, res2 = validate_trace(run, trace_module, cfg, trace_path, tag="tv-rerun", timeout=timeout, xmx=xmx, extra_env=extra_env, spec_dir=spec_dir)
         if ok2:
